@@ -5,7 +5,7 @@ import random
 from collections import Counter
 
 from .. import gen, sem
-from ..snapshot import build, pg_from_json, pg_to_json
+from ..snapshot import DerivationWrong, build, build_case, pg_from_json, pg_to_json
 
 LEVEL = "exploration"
 RULE = (
@@ -111,11 +111,21 @@ def gen_cases(ctx):
             cls = rng.choice(["MolGraph", "StereoMolGraph"])
             a = gen.random_pg(rng, cls, n_range=(2, 10), alphabet=rng.choice([gen.TINY, gen.SMALL, gen.WIDE]), p_stereo=0.4)
             how = rng.random()
-            if how < 0.7:
+            if how < 0.6:
                 r = gen.mutate(rng, sem.pg_relabel(a, gen.random_bijection(rng, a)), rng.choice(["element", "element", "move_bond", "add_bond", "remove_bond"]))
                 if not r:
                     continue
                 b = r[1]
+            elif how < 0.75:  # the same skeleton with the elements of two or three atoms exchanged
+                if rng.random() < 0.6:
+                    a = gen.random_pg(rng, cls, n_range=(3, 5), alphabet=gen.SMALL, p_stereo=0.0, allow_isolated=False)
+                ids_ = list(a["atoms"])
+                if len(ids_) < 2:
+                    continue
+                pick = rng.sample(ids_, min(len(ids_), rng.choice([2, 2, 3])))
+                b = sem.pg_copy(a)
+                for x, y in zip(pick, pick[1:] + pick[:1]):
+                    b["atoms"][y]["atom_type"] = a["atoms"][x]["atom_type"]
             else:
                 b = gen.random_pg(rng, cls, n_range=(len(a["atoms"]),) * 2, alphabet=gen.TINY, p_stereo=0.4, allow_isolated=False)
             if signature(a) == signature(b):
@@ -148,8 +158,15 @@ def gen_cases(ctx):
 def check_case(ctx, case):
     a, b = pg_from_json(case["a"]), pg_from_json(case["b"])
     brng = random.Random(case["bseed"])
-    ga, gb = build(a, rng=brng), build(b, rng=brng)
     fam, cls = case["fam"], case["cls"]
+    try:  # both graphs reach the hash through a seed-chosen provenance (direct build, subgraph, compose, relabel, removals, copies, JSON)
+        ga, via_a = build_case(a, case["bseed"])
+        gb, via_b = build_case(b, case["bseed"] // 15)
+    except DerivationWrong as e:
+        ctx.violate(f"C16/derived-input-differs/{cls}/{e.via}", f"deriving the input graph: {e}", case)
+        ctx.case()
+        return
+    ctx.count(f"via:{via_a}")
     ctx.case((fam, sem.canon_key(a), sem.canon_key(b), case.get("unit"), case.get("mut")), len(a["atoms"]) == len(b["atoms"]))
     if fam == "i":
         ctx.count("family_i")
